@@ -69,6 +69,36 @@ Proof.
   exists k. apply violates_not_holds. exact V.
 Qed.
 
+(* ---------- every cleanup block of every instance is entered by some single-fault run ---------- *)
+
+Section Cover.
+  Variable Lf Rf : scn -> list nat.
+  Definition cov_b (p : nat * scn) : bool :=
+    forallb (fun l => existsb (Nat.eqb l) dead_labels || existsb (Nat.eqb l) (Rf (snd p))) (Lf (snd p)).
+  Lemma sweep_cov t : forallb cov_b t = true -> forall id sc l,
+    lookup id t = Some sc -> In l (Lf sc) -> In l dead_labels \/ In l (Rf sc).
+  Proof.
+    intros T id sc l H Hl. apply (lookup_in id) in H.
+    rewrite forallb_forall in T. apply T in H. unfold cov_b in H. cbn [snd] in H.
+    rewrite forallb_forall in H. apply H in Hl. apply orb_prop in Hl.
+    destruct Hl as [E|E]; apply existsb_exists in E; destruct E as [y [Hy Ey]];
+      apply Nat.eqb_eq in Ey; subst y; [left|right]; exact Hy.
+  Qed.
+End Cover.
+
+Lemma table_labels_covered : forallb (cov_b op_labels reached_labels) inst_table = true.
+Proof. vm_compute. reflexivity. Qed.
+
+Lemma labels_all_reached id sc l :
+  inst_by_id id = Some sc -> In l (op_labels sc) ->
+  In l dead_labels \/ exists f, In f single_runs /\ In l (o_labels (run_scn sc f)).
+Proof.
+  intros H Hl.
+  destruct (sweep_cov op_labels reached_labels inst_table table_labels_covered id sc l H Hl) as [D|R].
+  - left. exact D.
+  - right. unfold reached_labels in R. apply in_flat_map in R. exact R.
+Qed.
+
 (* P_refuted of the known finding: the queue node allocation fails and the void
    function returns normally *)
 Lemma void_add_ctx_refuted :
@@ -144,4 +174,13 @@ Proof. vm_compute. reflexivity. Qed.
 
 Example pointer_slot_both_fail :      (* unchecked-then-joint-test pattern: two oracle positions consulted *)
   let o := run_scn i_pointer_slot (faults_of [0; 1]) in o_rc o = Fail /\ o_att o = 2 /\ o_live o = [].
+Proof. vm_compute. repeat split; reflexivity. Qed.
+
+Example accept_path_alloc_fault :      (* cb_alloc fails: the accepted descriptor is closed, nothing else changes *)
+  let o := run_scn i_seh_on_read_accept (single 0) in
+  o_att o = 1 /\ o_labels o = [78] /\ length (o_live o) = length (o_base o) /\ o_dlive o = [].
+Proof. vm_compute. repeat split; reflexivity. Qed.
+
+Example pipe_init_one_call_two_fds :
+  let o := run_scn i_seh_pipe_init no_fault in o_att o = 1 /\ length (o_live o) = 2 /\ o_dlive o = [].
 Proof. vm_compute. repeat split; reflexivity. Qed.
